@@ -21,6 +21,7 @@ DRIVERS = [
     ("ownership_driver", "ExtractOwnership.v", "ownership_model.ml", "ownership_driver.ml"),
     ("registry_driver", "ExtractRegistry.v", "registry_model.ml", "registry_driver.ml"),
     ("observer_driver", "ExtractObserver.v", "observer_model.ml", "observer_driver.ml"),
+    ("handover_driver", "ExtractHandover.v", "handover_model.ml", "handover_driver.ml"),
 ]
 GO_PKGS = ["proxy", "encryption", "interceptor", "collect", "config", "proto/compat", "transport/mux"]
 
